@@ -374,15 +374,9 @@ theorem root_attrs {st : Dict} (hn : (keys st).Nodup) (a : Args) (k : Str)
 
 /-! ## the property theorems -/
 
-/-- **settings_header**: whenever the settings are accepted, every header location other than the
-    root attributes (title, root element name, `<submission>` presence and attributes, body class,
-    every `xmlns…` declaration, instanceID presence, instanceName calculate) holds exactly the value
-    the setting → location table `Spec.want` prescribes — for every settings dict and all arguments. -/
-theorem settings_header {st : Dict} {a : Args} {h : Header} (hn : (keys st).Nodup)
-    (hh : header st a = .ok h) (L : Loc) (hL : ∀ k, L ≠ .rootAttr k) :
-    h.read L = Spec.want (sig st) a L := by
-  have := header_ok hh
-  subst this
+/-- the core of `settings_header`: the header the model builds, read at any location but the root attributes -/
+theorem headerOf_read {st : Dict} {a : Args} (hn : (keys st).Nodup) (L : Loc) (hL : ∀ k, L ≠ .rootAttr k) :
+    (headerOf st a).read L = Spec.want (sig st) a L := by
   have hu : (surveyOf (jsonRoot st a)).submissionUrl = Spec.opt (aget (S "submission_url") st) :=
     sv_opt hn a "submission_url" dn
   have hp : (surveyOf (jsonRoot st a)).publicKey = Spec.opt (aget (S "public_key") st) :=
@@ -416,6 +410,17 @@ theorem settings_header {st : Dict} {a : Args} {h : Header} (hn : (keys st).Nodu
     rw [this]
     cases Spec.omitId (sig st) <;> rfl
   | instanceName => rfl
+
+/-- **settings_header**: whenever the settings are accepted, every header location other than the
+    root attributes (title, root element name, `<submission>` presence and attributes, body class,
+    every `xmlns…` declaration, instanceID presence, instanceName calculate) holds exactly the value
+    the setting → location table `Spec.want` prescribes — for every settings dict and all arguments. -/
+theorem settings_header {st : Dict} {a : Args} {h : Header} (hn : (keys st).Nodup)
+    (hh : header st a = .ok h) (L : Loc) (hL : ∀ k, L ≠ .rootAttr k) :
+    h.read L = Spec.want (sig st) a L := by
+  have := header_ok hh
+  subst this
+  exact headerOf_read hn L hL
 
 /-- a location's value is a function of its own settings only (spec level) -/
 theorem want_congr {σ σ' : Spec.Sigma} (a : Args) (L : Loc)
@@ -913,6 +918,180 @@ theorem survey_rows_prefix :
     rw [aget_jsonRoot_plain hn a dn]
 
 end Rows
+
+/-! ### the full header statement with settings rows on the survey sheet -/
+
+/-- the settings a survey-sheet row can target -/
+def targets3 : List Str := [S "title", S "id_string", S "prefix"]
+
+theorem aget_mem {κ β : Type} [DecidableEq κ] {k : κ} {v : β} {l : List (κ × β)} (h : aget k l = some v) :
+    (k, v) ∈ l := by
+  induction l with
+  | nil => simp [aget] at h
+  | cons p r ih =>
+    obtain ⟨k', v'⟩ := p
+    by_cases hk : k = k'
+    · simp [aget, hk] at h; subst h; subst hk; simp
+    · simp [aget, hk] at h; exact List.mem_cons_of_mem _ (ih h)
+
+theorem surveyAssigns_targets (ss : List (Str × Option Str)) : ∀ p ∈ surveyAssigns ss, p.1 ∈ targets3 := by
+  intro p hp
+  obtain ⟨q, _, hq⟩ := List.mem_filterMap.mp hp
+  unfold surveyRowSetting at hq
+  split at hq
+  · rename_i c cs hal
+    cases hq
+    have hm := aget_mem hal
+    obtain ⟨e, he, hee⟩ := List.mem_map.mp hm
+    have ht := List.all_eq_true.mp survey_row_targets e he
+    have h2 : e.2.toList = c :: cs := by
+      have := congrArg Prod.snd hee
+      simpa using this
+    show c :: cs ∈ targets3
+    rw [← h2]
+    simp only [List.contains_cons, List.contains_nil, Bool.or_false, Bool.or_eq_true, beq_iff_eq] at ht
+    rcases ht with h | h | h <;> rw [h] <;> decide
+  · cases hq
+
+theorem agetLast_none_of_no_key {k : Str} {l : Dict} (h : ∀ p ∈ l, p.1 ≠ k) : agetLast k l = none := by
+  induction l with
+  | nil => rfl
+  | cons p r ih =>
+    obtain ⟨k', v'⟩ := p
+    have h1 : k ≠ k' := fun e => h (k', v') (by simp) e.symm
+    simp [agetLast, ih (fun q hq => h q (List.mem_cons_of_mem _ hq)), h1]
+
+theorem assigns_none (ss : List (Str × Option Str)) {k : Str} (hk : k ∉ targets3) :
+    agetLast k (surveyAssigns ss) = none :=
+  agetLast_none_of_no_key fun p hp e => hk (e ▸ surveyAssigns_targets ss p hp)
+
+theorem j2 {st : Dict} (a : Args) (ss : List (Str × Option Str)) (k : String) (hk : k.toList ∉ targets3) :
+    aget k.toList (jsonRoot2 st a ss) = aget k.toList (jsonRoot st a) :=
+  jsonRoot2_other a ss (assigns_none ss hk)
+
+theorem overlay_other (σ : Spec.Sigma) (a : Args) (ss : List (Str × Option Str)) {k : Str} (hk : k ∉ targets3) :
+    Spec.overlay σ a (surveyAssigns ss) k = σ k := by
+  unfold Spec.overlay
+  have hne : k ≠ S "title" := fun e => hk (by rw [e]; simp [targets3])
+  simp [assigns_none ss hk, hne]
+
+/-- the Survey object after the row loop differs from the one of the settings sheet in the three
+    targeted slots only -/
+theorem surveyOf2_eq {st : Dict} (a : Args) (ss : List (Str × Option Str)) :
+    surveyOf (jsonRoot2 st a ss) =
+      { surveyOf (jsonRoot st a) with
+        title := (surveyOf (jsonRoot2 st a ss)).title, idString := (surveyOf (jsonRoot2 st a ss)).idString,
+        pfx := (surveyOf (jsonRoot2 st a ss)).pfx } := by
+  simp only [surveyOf, slotStr, slotOpt, slotDict,
+    j2 a ss "name" (by decide), j2 a ss "version" (by decide), j2 a ss "style" (by decide),
+    j2 a ss "auto_delete" (by decide), j2 a ss "auto_send" (by decide), j2 a ss "instance_xmlns" (by decide),
+    j2 a ss "namespaces" (by decide), j2 a ss "public_key" (by decide), j2 a ss "submission_url" (by decide),
+    j2 a ss "delimiter" (by decide), j2 a ss "attribute" (by decide)]
+
+theorem header2_ok {st : Dict} {ss : List (Str × Option Str)} {a : Args} {h : Header}
+    (hh : header2 st ss a = .ok h) : h = headerOf2 st ss a := by
+  unfold header2 at hh
+  split at hh
+  · cases hh
+  · split at hh
+    · cases hh
+    · split at hh
+      · cases hh
+      · split at hh
+        · cases hh
+        · split at hh
+          · cases hh
+          · cases hh; rfl
+
+/-- locations that no survey-sheet row can reach read the same as without such rows -/
+theorem read2_eq {st : Dict} (a : Args) (ss : List (Str × Option Str)) (L : Loc) (h1 : L ≠ .title)
+    (h2 : ∀ k, L ≠ .rootAttr k) : (headerOf2 st ss a).read L = (headerOf st a).read L := by
+  cases L with
+  | title => exact absurd rfl h1
+  | rootAttr k => exact absurd rfl (h2 k)
+  | rootName => show some (surveyOf (jsonRoot2 st a ss)).name = _; rw [surveyOf2_eq]; rfl
+  | hasSubmission =>
+    show (if (submissionOf (surveyOf (jsonRoot2 st a ss))).isSome then some [] else none) = _
+    rw [surveyOf2_eq]; rfl
+  | subAttr k =>
+    show (match submissionOf (surveyOf (jsonRoot2 st a ss)) with | some l => aget k l | none => none) = _
+    rw [surveyOf2_eq]; rfl
+  | bodyClass => show (surveyOf (jsonRoot2 st a ss)).style = _; rw [surveyOf2_eq]; rfl
+  | ns q => show aget q (nsmapOf (surveyOf (jsonRoot2 st a ss))) = _; rw [surveyOf2_eq]; rfl
+  | instanceID => rfl
+  | instanceName => rfl
+
+/-- the table's values at those locations do not see the overlay either -/
+theorem want2_eq (σ : Spec.Sigma) (a : Args) (ss : List (Str × Option Str)) (L : Loc) (h1 : L ≠ .title)
+    (h2 : ∀ k, L ≠ .rootAttr k) :
+    Spec.want (Spec.overlay σ a (surveyAssigns ss)) a L = Spec.want σ a L := by
+  apply want_congr
+  cases L with
+  | title => exact absurd rfl h1
+  | rootAttr k => exact absurd rfl (h2 k)
+  | _ =>
+    intro k hk
+    simp only [Spec.deps, List.mem_cons, List.mem_nil_iff, or_false] at hk
+    rcases hk with rfl | rfl | rfl | rfl <;> exact overlay_other σ a ss (by decide)
+
+/-- root attributes with survey-sheet rows, under the local-name guard -/
+theorem root_attrs2 {st : Dict} (hn : (keys st).Nodup) (a : Args) (ss : List (Str × Option Str)) (k : Str)
+    (hK : LocalsDistinct (Spec.rootAttrKeys (sig st))) :
+    aget k (rootAttrsOf (surveyOf (jsonRoot2 st a ss))) =
+      Spec.rootAttr (Spec.overlay (sig st) a (surveyAssigns ss)) a k := by
+  have hx : (surveyOf (jsonRoot st a)).instanceXmlns = Spec.opt (aget (S "instance_xmlns") st) :=
+    sv_opt hn a "instance_xmlns" dn
+  have hdel : (surveyOf (jsonRoot st a)).delimiter = Spec.opt (aget (S "delimiter") st) :=
+    sv_opt hn a "delimiter" dn
+  have e1 : (surveyOf (jsonRoot2 st a ss)).attrib.getD [] = Spec.attrs (sig st) := by
+    rw [surveyOf2_eq]; exact sv_attrib hn a
+  have e2 : (surveyOf (jsonRoot2 st a ss)).instanceXmlns = Spec.opt (aget (S "instance_xmlns") st) := by
+    rw [surveyOf2_eq]; exact hx
+  have e3 : (surveyOf (jsonRoot2 st a ss)).version = Spec.txt (aget (S "version") st) := by
+    rw [surveyOf2_eq]; exact sv_version hn a
+  have e4 : (surveyOf (jsonRoot2 st a ss)).delimiter = Spec.opt (aget (S "delimiter") st) := by
+    rw [surveyOf2_eq]; exact hdel
+  unfold rootAttrsOf rootAttrsWith
+  rw [e1, e2, e3, e4, survey_rows_id hn a ss, survey_rows_prefix hn a ss,
+    rootList_domSet_eq_aset _ _ _ _ _ _ hK, rootList_read]
+  unfold rootSpec Spec.rootAttr Spec.attrs
+  rw [overlay_other (sig st) a ss (k := S "delimiter") (by decide),
+    overlay_other (sig st) a ss (k := S "version") (by decide),
+    overlay_other (sig st) a ss (k := S "instance_xmlns") (by decide),
+    overlay_other (sig st) a ss (k := S "attribute") (by decide)]
+
+/-- **settings_header2**: the full header statement with settings rows on the survey sheet — every
+    location of an accepted form holds what the table prescribes for the settings sheet overlaid with
+    the survey sheet's rows (`Spec.overlay`: last row per setting wins; title default from the settings
+    sheet's id), under the same local-name guard as `settings_header_all`. -/
+theorem settings_header2 {st : Dict} {ss : List (Str × Option Str)} {a : Args} {h : Header}
+    (hn : (keys st).Nodup) (hh : header2 st ss a = .ok h)
+    (hK : LocalsDistinct (Spec.rootAttrKeys (sig st))) (L : Loc) :
+    h.read L = Spec.want (Spec.overlay (sig st) a (surveyAssigns ss)) a L := by
+  have := header2_ok hh
+  subst this
+  by_cases h1 : L = .title
+  · subst h1
+    show some (surveyOf (jsonRoot2 st a ss)).title = some _
+    rw [survey_rows_title hn a ss]
+  · by_cases h2 : ∃ k, L = .rootAttr k
+    · obtain ⟨k, rfl⟩ := h2
+      exact root_attrs2 hn a ss k hK
+    · have h2' : ∀ k, L ≠ .rootAttr k := fun k e => h2 ⟨k, e⟩
+      rw [read2_eq a ss L h1 h2', want2_eq _ a ss L h1 h2']
+      exact headerOf_read hn L h2'
+
+/-- **model2_header**: the whole modelled path with survey-sheet settings rows -/
+theorem model2_header {hdr : List Str} {row : List (Str × Str)} {ss : List (Str × Option Str)} {a : Args}
+    {h : Header} (hm : model2 (some (hdr, row)) ss a = .ok h) :
+    ∃ st, dealias hdr row = .ok st ∧ (keys st).Nodup ∧
+      (LocalsDistinct (Spec.rootAttrKeys (sig st)) →
+        ∀ L, h.read L = Spec.want (Spec.overlay (sig st) a (surveyAssigns ss)) a L) := by
+  change (match dealias hdr row with | .ok st => header2 st ss a | .error e => .error e) = .ok h at hm
+  split at hm
+  · rename_i st hst
+    exact ⟨st, hst, dealias_nodup hst, fun hK L => settings_header2 (dealias_nodup hst) hm hK L⟩
+  · cases hm
 
 /-- non-vacuity: a `form_id` row on the survey sheet changes the id but not the title default -/
 example :
